@@ -844,6 +844,18 @@ func (x *fx) clearBuiltin(s *Val, t types.Type) {
 func (x *fx) appendBuiltin(s, t *Val, stype, ttype types.Type, set func(*Val)) {
 	et := stype.Underlying().(*types.Slice).Elem()
 	if arrScale(et) != 1 {
+		if x.c.Abstract {
+			x.abstracted["append on a slice of arrays (result and element memory unconstrained)"] = true
+			name := x.memName(et)
+			x.nver++
+			h := x.newMem("havoc", x.curMem)
+			h.tag = fmt.Sprintf("arrapp%d", x.nver)
+			h.set = map[string]bool{name: true}
+			x.curMem = h
+			x.noteWrite(name)
+			set(x.havocVal("append", stype))
+			return
+		}
 		panic(unsupported("append on slice of arrays"))
 	}
 	tl := slLen(t.S)
